@@ -27,10 +27,10 @@ type Check struct {
 	Special func(tier Tier, rep *engine.Report) error
 	// SpecialSharded: Special is run in every shard process and divides its work by Shard/NShard.
 	SpecialSharded bool
-	Replay  func(raw []byte) int // replays a Special check's artefact
-	Confirm func(raw []byte) bool // re-runs a Special finding; true if it reproduces
-	Rule    string // how cases are enumerated / what counts as non-trivial
-	Assume  []string
+	Replay         func(raw []byte) int  // replays a Special check's artefact
+	Confirm        func(raw []byte) bool // re-runs a Special finding; true if it reproduces
+	Rule           string                // how cases are enumerated / what counts as non-trivial
+	Assume         []string
 }
 
 // Shard / NShard are set in shard processes (see Check.SpecialSharded).
